@@ -49,6 +49,7 @@ class Inbound(explore.Scenario):
     max_points = 40000
     idle_window = 8.0
     shared = SHARED_NODE
+    auto_shared = True
 
     def driver(self, rt):
         kinds, cuts, role = self.params["kinds"], self.params["cuts"], self.params.get("role", "client")
